@@ -131,7 +131,18 @@ def audit(pid):
     return res
 
 
-def prepare(pid):
+def leancheck(pid):
+    """independent re-check of the compiled property module (and what it imports) with leanchecker"""
+    with Lock():
+        pass
+    try:
+        rc, out, err = _run(["lake", "env", "leanchecker", "CobaldVerif.Props.%s" % pid], timeout=3000)
+    except Exception as e:
+        return False, str(e)
+    return rc == 0, (out + err)[-1500:]
+
+
+def prepare(pid, thorough=False):
     """Build driver + property theorems, audit. Returns a status dict:
     driver_ok, props_ok, log, theorems {name: axioms}, bad_axioms, forbidden"""
     t0 = time.time()
@@ -161,6 +172,11 @@ def prepare(pid):
                 st["bad"].append("theorem:%s (not audited)" % n)
             elif not set(axs) <= ALLOWED_AXIOMS:
                 st["bad"].append("theorem:%s axioms=%s" % (n, axs))
+    if ok and thorough:
+        good, log = leancheck(pid)
+        st["leanchecker"] = "ok" if good else log
+        if not good:
+            st["bad"].append("leanchecker:CobaldVerif.Props.%s" % pid)
     st["forbidden"] = forbidden_scan()
     for h in st["forbidden"]:
         st["bad"].append("forbidden-token:%s" % h)
